@@ -6,8 +6,8 @@
 
 use jiff::{
     civil::DateTime,
-    tz::{AmbiguousZoned, Disambiguation, Offset, TimeZone},
-    SignedDuration, Timestamp, ToSpan, Unit, Zoned,
+    tz::{AmbiguousZoned, Disambiguation, Offset, OffsetConflict, TimeZone},
+    SignedDuration, SpanRound, Timestamp, ToSpan, Unit, Zoned,
 };
 
 use crate::c20::prog::*;
@@ -620,6 +620,30 @@ pub fn apply<E: Env>(me: u8, op: &Op, slots: &mut Slots, env: &mut E) -> bool {
                 env.api_panic("zoned_sweep");
             }
         }
+        Op::ZonedSpanRel { a, which, arg } => {
+            let Some(x) = slots[ix(*a)].as_ref() else { return false };
+            let Val::Zoned(ref z) = x.val else { return false };
+            let n = *arg as i64;
+            let span = n.days().hours(n % 24).months((n % 7) as i64);
+            let other = (n % 5).months().days(n % 31);
+            let r = quietly(|| match which % N_SPAN_REL {
+                0 => drop(span.total((Unit::Day, z))),
+                1 => drop(span.total((Unit::Month, z))),
+                2 => drop(span.round(SpanRound::new().largest(Unit::Year).relative(z))),
+                3 => drop(span.round(SpanRound::new().smallest(Unit::Day).relative(z))),
+                4 => drop(span.compare((other, z))),
+                5 => drop(span.checked_add((other, z))),
+                6 => drop(span.checked_sub((other, z))),
+                _ => {
+                    let text = z.to_string();
+                    let _ = z.strftime("%Y-%m-%d %H:%M:%S %Z %z %Q").to_string();
+                    drop(text);
+                }
+            });
+            if r.is_none() {
+                env.api_panic("zoned_span_rel");
+            }
+        }
         Op::TzMake { src, dst, which, t } => {
             let Some(x) = slots[ix(*src)].as_ref() else { return false };
             let tz = x.val.tz();
@@ -631,7 +655,23 @@ pub fn apply<E: Env>(me: u8, op: &Op, slots: &mut Slots, env: &mut E) -> bool {
                 2 => dt.to_zoned(tz.clone()).ok().map(Val::Zoned),
                 3 => dt.date().to_zoned(tz.clone()).ok().map(Val::Zoned),
                 4 => Some(Val::Amb(tz.to_ambiguous_zoned(dt))),
-                _ => Some(Val::Zoned(instant(*t).to_zoned(tz.clone()))),
+                5 => Some(Val::Zoned(instant(*t).to_zoned(tz.clone()))),
+                // `OffsetConflict::resolve` consumes the handle; on the error
+                // paths it is dropped inside.
+                w => {
+                    let conflict = match w {
+                        6 => OffsetConflict::AlwaysOffset,
+                        7 => OffsetConflict::AlwaysTimeZone,
+                        8 => OffsetConflict::PreferOffset,
+                        _ => OffsetConflict::Reject,
+                    };
+                    let off = if *t % 2 == 0 {
+                        tz.to_offset(instant(*t))
+                    } else {
+                        Offset::from_seconds(3 * 3600 + 17).unwrap()
+                    };
+                    conflict.resolve(dt, off, tz.clone()).ok().map(Val::Amb)
+                }
             };
             if let Some(val) = made {
                 env.handles(zone, 1);
